@@ -25,7 +25,7 @@ MANIFEST = {
             "constants and update order and the path/plumbing functions are checked. Decides key equality for all schemas and paths (given "
             "C15's conversion) and sensitivity at the level 'distinct node kinds and names feed distinct bytes in order'.",
     "note": "Does not decide collision-freeness (a 64-bit hash has collisions). Trusted: u64::wrapping_mul, str::as_bytes.",
-    "technique": "static analysis: per-arm event extraction from path-sensitive MIR evaluation + sibling agreement + frozen published tag table",
+    "technique": "static analysis: hash input stream decoded from the returned state term of path-sensitive MIR evaluation (helpers inlined) + sibling agreement + published tag table and stream grammar + hand-written FNV-1a specifications",
 }
 
 BASIS = 0xcbf29ce484222325
